@@ -17,6 +17,7 @@ for d in ['Base', 'Hash', 'Generated', 'Spec', 'Model', 'Proofs', 'Properties', 
 
 GOENV = dict(os.environ, GOWORK='off', GOFLAGS='-mod=mod', GOPROXY='off', GOTOOLCHAIN=os.environ.get('GOTOOLCHAIN', 'auto'))
 GOENV.pop('GOSUMDB', None)
+os.environ['VERIF_LITERALS'] = os.path.join(WORK, 'gen_model.json')   # read by the harness generators
 
 ALLOWED_AXIOMS = set()   # none: every property theorem must be closed under the global context
 
@@ -67,7 +68,7 @@ def repo_fingerprint():
 def build_tools():
     """tools that do not depend on /repo: built once (setup) or on demand"""
     msgs = []
-    for tool in ('gen_tables', 'gen_ssa'):
+    for tool in ('gen_tables', 'gen_ssa', 'gen_model'):
         src = os.path.join(ROOT, 'tools', tool)
         binp = os.path.join(BIN, tool)
         newest = max(os.path.getmtime(os.path.join(src, f)) for f in os.listdir(src) if f.endswith('.go') or f == 'go.mod')
@@ -161,6 +162,7 @@ def build_all(log):
         else:
             with open(stamp, 'w') as f:
                 f.write(fp)
+    gen_model(st, log)
     # the executable model first (does not depend on any proof)
     rc, out = sh(['make', '-j%d' % NCPU, 'Extract/Extract.vo'], cwd=COQ, timeout=1800)
     log.write('--- make Extract\n' + out[-4000:])
@@ -185,6 +187,52 @@ def build_all(log):
     return st
 
 
+def gen_model(st, log):
+    """Go source -> Generated/Src.v (tools/gen_model).  A function whose translation does not compile is left out
+    (and with it what calls it) and the translation is repeated; what could not be translated is recorded."""
+    srcv = os.path.join(COQ, 'Generated', 'Src.v')
+    rep = os.path.join(WORK, 'gen_model.json')
+    env = dict(os.environ, GOPROXY='off')
+    env.pop('GOFLAGS', None); env.pop('GOWORK', None); env.pop('GOSUMDB', None)
+    skip, info = [], {'ok': False, 'skipped': [], 'untranslated': {}, 'translated': 0}
+    for attempt in range(8):
+        if os.path.exists(rep):
+            os.remove(rep)
+        rc, out = sh([os.path.join(BIN, 'gen_model'), REPO, srcv, rep] + (['-skip', ','.join(skip)] if skip else []), env=env, timeout=600)
+        log.write('--- gen_model %s\n%s' % (skip, out[-1500:]))
+        if rc or not os.path.exists(rep):
+            with open(srcv, 'w') as f:
+                f.write('(* tools/gen_model could not load or translate the sources of the repository *)\n')
+            info['note'] = 'translator gen_model failed: ' + out.strip()[-400:]
+            break
+        r = json.load(open(rep))
+        info['untranslated'], info['translated'] = r.get('untranslated', {}), len(r.get('translated', []))
+        rc, out = sh(['make', 'Generated/Src.vo'], cwd=COQ, timeout=900)
+        if rc == 0:
+            info['ok'] = True
+            break
+        m = re.search(r'File "\./Generated/Src\.v", line (\d+)', out)
+        bad = None
+        if m:
+            for i, line in enumerate(open(srcv).read().split('\n')[:int(m.group(1))]):
+                mm = re.match(r'(?:Definition|Fixpoint) (\w+?)(?:_loop\d+)? ', line)
+                if mm:
+                    bad = mm.group(1)
+        log.write('--- Src.v does not compile (%s): %s\n' % (bad, out[-800:]))
+        names = {n.replace('.', '_'): n for n in r.get('translated', [])}
+        if not bad or bad not in names or names[bad] in skip:
+            with open(srcv, 'w') as f:
+                f.write('(* the translation of the sources did not compile: %s *)\n' % (bad or 'unknown place'))
+            info['note'] = 'the translated source did not compile and the offending function could not be isolated'
+            break
+        skip.append(names[bad])
+        info['skipped'] = list(skip)
+    st['source_translation'] = info
+    if not info['ok'] or info['untranslated']:
+        st['notes'].append('source translation (gen_model): %d functions translated; not translated: %s' % (
+            info['translated'], '; '.join('%s (%s)' % kv for kv in sorted(info['untranslated'].items())) or info.get('note', '-')))
+
+
 def coq_errors(out):
     errs = []
     cur = None
@@ -204,9 +252,9 @@ def vo_fresh(vfile):
     return os.path.exists(vo) and os.path.getmtime(vo) >= os.path.getmtime(v)
 
 
-def obligations(pid, log):
-    """theorems of Properties/<pid>.v; discharged = file compiles and each Print Assumptions is acceptable"""
-    vfile = 'Properties/%s.v' % pid
+def obligations(pid, log, suffix=''):
+    """theorems of Properties/<pid><suffix>.v; discharged = file compiles and each Print Assumptions is acceptable"""
+    vfile = 'Properties/%s%s.v' % (pid, suffix)
     src = open(os.path.join(COQ, vfile)).read()
     thms = re.findall(r'^(?:Theorem|Lemma)\s+(\w+)', src, re.M)
     res = {'file': 'coq/' + vfile, 'theorems': thms, 'assumptions': {}, 'discharged': 0, 'failed': []}
@@ -437,12 +485,12 @@ def load_known():
     return known
 
 
-def correspondence(pid, streams, seed, tier, log, extra_cases=None):
+def correspondence(pid, streams, seed, tier, log, extra_cases=None, scale=1):
     """returns dict(stats) and list of disagreements"""
     cases = list(load_corpus(pid))
     n_corpus = len(cases)
     for (stream, nq, nt) in streams:
-        n = nq if tier == 'quick' else nt
+        n = min(nq * scale, nt) if tier == 'quick' else nt
         rc, out = sh([os.path.join(BIN, 'harness'), 'gen', stream, str(seed), str(n)], timeout=600)
         if rc:
             raise RuntimeError('harness gen %s failed: %s' % (stream, out[-500:]))
@@ -642,6 +690,21 @@ def run_check(pid, tier, seed, replay, log, t0):
     if ob['failed']:
         violations.append(('proof obligations of %s no longer check: %s' % (ob['file'], ', '.join(ob['failed'])),
                            {'what': 'theorems that no longer check', 'theorems': ob['failed'], 'coq_errors': st['coq_errors'], 'notes': st['notes']}, False))
+    # ---- the same theorems over the definitions translated from the Go source on this run (second tie)
+    src_tie, scale = None, 1
+    if os.path.exists(os.path.join(COQ, 'Properties', pid + 'src.v')):
+        ob2 = obligations(pid, log, 'src')
+        src_tie = {'file': ob2['file'], 'theorems': ob2['theorems'], 'assumptions': ob2['assumptions'],
+                   'discharged': ob2['discharged'], 'failed': ob2['failed'], 'translation': st.get('source_translation')}
+        if ob2['failed']:
+            # a rewrite of the code can put a function outside the translated fragment or outside what the
+            # equivalence proofs expect; the property is then decided by the hand-written model alone, and the
+            # search for a disagreeing input is widened
+            scale = 8
+            src_tie['status'] = 'broken: decided by the hand-written model and a correspondence run of %d times the usual size' % scale
+            st['notes'].append('theorems over the translated source no longer check (%s): %s' % (ob2['file'], ', '.join(ob2['failed'])))
+        else:
+            src_tie['status'] = 'ok'
     if not st['translator_ok']:
         violations.append(('translator failed', {'what': 'translator gen_tables could not regenerate the model data from /repo', 'notes': st['notes']}, False))
     # ---- independent re-check of the compiled property file and everything it depends on (thorough tier)
@@ -662,7 +725,7 @@ def run_check(pid, tier, seed, replay, log, t0):
         violations.append(('correspondence could not be run', {'what': 'harness / model runner did not build', 'notes': st['notes'], 'coq_errors': st['coq_errors']}, False))
     else:
         if cfg['streams'] or load_corpus(pid):
-            stats, diffs, drift = correspondence(pid, cfg['streams'], seed, tier, log)
+            stats, diffs, drift = correspondence(pid, cfg['streams'], seed, tier, log, scale=scale)
     extra = extra_engines(pid, tier, seed, log, st)
     for d in extra.get('violations', []):
         diffs.append(d)
@@ -691,6 +754,7 @@ def run_check(pid, tier, seed, replay, log, t0):
         'trusted_base': TRUSTED_BASE + extra.get('trusted_base', []),
         'theorems': ob['assumptions'],
         'coqchk': coqchk_note,
+        'source_tie': src_tie,
         'evaluations': stats.get('evaluations', 0) + extra.get('evaluations', 0),
         'distinct_nontrivial': stats.get('distinct_nontrivial', 0) + extra.get('distinct_nontrivial', 0),
         'rule': RULE + extra.get('rule', ''),
@@ -713,8 +777,10 @@ def run_check(pid, tier, seed, replay, log, t0):
     for h in sorted(set(known_hits)):
         print('KNOWN-FINDING: property=%s %s' % (pid, h))
     if not violations:
-        print('OK property=%s tier=%s obligations=%d/%d evaluations=%d drift=%d wall=%.1fs' % (
-            pid, tier, ob['discharged'], len(ob['theorems']), cov['evaluations'], len(drift), time.time() - t0))
+        print('OK property=%s tier=%s obligations=%d/%d%s evaluations=%d drift=%d wall=%.1fs' % (
+            pid, tier, ob['discharged'], len(ob['theorems']),
+            (' source=%d/%d' % (src_tie['discharged'], len(src_tie['theorems']))) if src_tie else '',
+            cov['evaluations'], len(drift), time.time() - t0))
         return 0
     # order: concrete inputs first
     violations.sort(key=lambda v: not v[2])
